@@ -295,6 +295,17 @@ func c02Values(tier string) (names []string, vals map[string]interface{}) {
 	}
 	add("raw:bigint", json.RawMessage(`18446744073709551616`))
 	add("raw:nested", json.RawMessage(`{"a":[1,{"b":null}],"c":"\u0000"}`))
+	// pre-encoded values as a proxy would forward them: whatever their content, what reaches the wire is a valid frame or nothing
+	rawNul, rawEmpty := json.RawMessage("{\"a\":\"\x00\"}"), json.RawMessage{}
+	add("raw:nil", json.RawMessage(nil))
+	add("raw:empty", rawEmpty)
+	add("raw:nul", rawNul)
+	add("raw:trunc", json.RawMessage(`{"a":`))
+	add("raw:two", json.RawMessage(`{} {}`))
+	add("raw:ws", json.RawMessage(" {\"a\" : 1 } \n"))
+	add("raw:nulbyte", json.RawMessage("{}\x00"))
+	add("rawp:empty", &rawEmpty)
+	add("rawp:nul", &rawNul)
 	add("nan", math.NaN()) // not encodable: nothing may reach the wire
 	add("chan", make(chan int))
 	add("nil", nil)
@@ -327,7 +338,7 @@ func c02Body(d c02Desc, tier string) func() {
 			_, vals := c02Values(tier)
 			for _, vn := range d.Values {
 				v := vals[vn]
-				for _, path := range []string{"reply", "error", "method", "more"} {
+				for _, path := range []string{"reply", "error", "method", "more", "top", "topup"} {
 					c, _ := l.Dial("")
 					conn := varlink.VerifNewConnection(c)
 					echo.value, echo.path = v, path
@@ -344,6 +355,18 @@ func c02Body(d c02Desc, tier string) func() {
 						}
 						method = sv + ".M"
 						err = conn.Call(live, method, nil, &out)
+					case "top", "topup":
+						// the value itself is the parameters argument (Send / Upgrade), and the handler replies it as its
+						// whole parameters
+						if path == "top" {
+							var recv func(context.Context, interface{}) (uint64, error)
+							recv, err = conn.Send(live, method, v, 0)
+							if err == nil {
+								_, err = recv(live, &out)
+							}
+						} else {
+							_, err = conn.Upgrade(live, method, v)
+						}
 					case "more":
 						var recv func(context.Context, interface{}) (uint64, error)
 						recv, err = conn.Send(live, method, params, varlink.More)
@@ -718,6 +741,11 @@ func (e *c02Echo) VarlinkDispatch(ctx context.Context, c varlink.Call, method st
 			}
 			c.Continues = false
 			return c.Reply(ctx, v)
+		case "top", "topup":
+			if err := c.Reply(ctx, e.value); err != nil {
+				return c.Reply(ctx, nil)
+			}
+			return nil
 		default:
 			if err := c.Reply(ctx, v); err != nil {
 				// the value cannot be encoded: nothing was written, answer with an empty reply
